@@ -41,8 +41,12 @@ def run_program(arg):
     modes = {}
     # (1) eager
     res = []
+    # eager mode costs ~20 ms per operator call: run it on two of the defined inputs (rotating), the
+    # graph modes on all of them
+    defk = [k for k in range(len(INPUTS)) if defined[k]]
+    eager_k = set(defk[(idx + j) % len(defk)] for j in (0, 3)) if defk else set()
     for k, (a, n) in enumerate(INPUTS):
-        if not defined[k]:
+        if k not in eager_k:
             res.append("SKIP")
             continue
         try:
@@ -88,7 +92,8 @@ def select(ctx, states, n_quick):
     flat = [s for s in acc if scriptgen.depth(s["prog"]) < 2]
     for l in (dev, nested, flat, ref):
         rng.shuffle(l)
-    return dev[:150] + nested[: n_quick // 2] + flat[: n_quick // 2] + ref[:200]
+    # loops inside loops / ifs inside loops are where selection of carried variables is subtle: take more of them
+    return dev[:150] + nested[: (2 * n_quick) // 3] + flat[: n_quick // 3] + ref[:150]
 
 
 def judge(ctx, s, r):
@@ -131,6 +136,8 @@ def judge(ctx, s, r):
                 continue  # Python itself is undefined (NameError) or diverges on this input
             exp = list(py[1])
             got = res[k]
+            if got == "SKIP":
+                continue
             if got != exp:
                 fid = None
                 gr = s["res"][k]["gr"]
@@ -147,14 +154,14 @@ def judge(ctx, s, r):
 
 def run(ctx: core.Ctx):
     if ctx.quick:
-        states = scriptgen.tlc_programs(ctx, "Script_n3.cfg", "Script_sim.cfg", sim_num=2400, sim_depth=16)
+        states = scriptgen.tlc_programs(ctx, "Script_n3.cfg", "Script_sim.cfg", sim_num=8000, sim_depth=16)
     else:
         states = scriptgen.tlc_programs(ctx, "Script_n4.cfg", "Script_sim.cfg", sim_num=60000, sim_depth=18)
     vac = core.run_tlc("Script", "Script_vacuity.cfg", timeout=900)
     if vac.ok:
         raise core.MachineryError("vacuity: no accepted program with an if inside a for loop is reachable")
     ctx.set("spec_programs", len(states))
-    chosen = select(ctx, states, 700)
+    chosen = select(ctx, states, 1500)
     args = [(i, s["prog"], list(s["ret"]), (i % len(scriptgen.NAME_SCHEMES)) if i % 4 == 3 else 0,
              [r["py"][0] == "ok" for r in s["res"]]) for i, s in enumerate(chosen)]
     results = core.pmap_safe(run_program, args, timeout=90)
